@@ -159,3 +159,14 @@ PROPS["C07"] = dict(
     allow_no_contracts=True,
     bounded=[("c07_chunked_proximity", {"quick": 60, "thorough": 600})],
 )
+
+PROPS["C14"] = dict(
+    producers=[("pyvc.table_check", "call_items")],
+    level="proof",
+    technique="contract-based: post-conditions / loop invariants on the real A* helpers (crossability, bounds, pixel distance, minimum-cost open cell, nearest crossable cell, path reconstruction) and the cell-lookup arithmetic lemma (pyvc VCs -> z3); optimality and existence bounded against Dijkstra",
+    not_decided=["optimality of the returned route and 'route exists => found' (needs a shortest-path ghost over all routes): bounded, exhaustive on 3x3",
+                 "float rounding inside _get_pixel_id (proved in real arithmetic; fractional steps / offsets bounded)"],
+    assumptions=[],
+    trusted_base=[],
+    bounded=[("c14_a_star_small_grids", {"quick": 60, "thorough": 1200}), ("c14_a_star_random", {"quick": 40, "thorough": 400})],
+)
